@@ -184,7 +184,7 @@ int main(void)
 				do_readsome();
 				do_burst(1ul << 30); do_burst(1ul << 30); do_burst(261);   /* a 32-bit counter that was never folded would now stand at 5 */
 			} else {
-				do_burst(1ul << 30); do_burst(1ul << 30); do_burst(1ul << 30); do_burst(1ul << 30); do_burst(5);
+				do_burst(1ul << 30); do_burst(1ul << 30); do_burst(1ul << 30); do_burst(1ul << 30); for (int i = 0; i < 5; i++) do_log(0);
 			}
 			do_readall(); do_dump(); do_log(1); do_log(1); do_readsome(); do_log(0); do_readall();
 		}
